@@ -56,14 +56,18 @@ def validate (dims : Nat) : Val → Except String (Option (List Rat))
   | .scalar x => .ok (some (List.replicate dims x))
   | .seq xs => if xs.length ≠ dims then .error "runtime_error" else .ok (some xs)
 
-/-- `_validate(gpts, dtype=int)` followed by `validate_gpts` (ValueError unless every entry is `> 0`; since fix in /repo) -/
-def validateGpts (dims : Nat) (v : Val) : Except String (Option (List Int)) :=
+/-- `_validate(gpts, dtype=int)` followed by `Grid._check_gpts(gpts, extent)`: negative entries raise ValueError; an entry `0`
+is legal only where the (defined) extent is zero — an empty scan block; with an undefined extent every entry must be `> 0` -/
+def validateGpts (dims : Nat) (v : Val) (extent : Option (List Rat)) : Except String (Option (List Int)) :=
   match validate dims v with
   | .error e => .error e
   | .ok none => .ok none
   | .ok (some l) =>
     let ns := l.map pyInt
-    if ns.all (fun n => decide (0 < n)) then .ok (some ns) else .error "value_error"
+    if ns.any (fun n => decide (n < 0)) then .error "value_error"
+    else match extent with
+      | none => if ns.all (fun n => decide (0 < n)) then .ok (some ns) else .error "value_error"
+      | some rs => if (ns.zip rs).any (fun p => decide (p.1 = 0) && decide (p.2 ≠ 0)) then .error "value_error" else .ok (some ns)
 
 /-- `zip(a, b, c)` then the element function -/
 def zipWith3 {α β γ δ} (f : α → β → γ → δ) : List α → List β → List γ → List δ
@@ -128,7 +132,9 @@ def extentLockFails (g : Grid) (v : Val) : Except String Bool :=
 def setExtentCore (g : Grid) (ve : Option (List Rat)) : Res :=
   let r : Res :=
     if g.lockSampling || g.gpts.isNone then
-      (adjustGpts g ve g.sampling).bind fun g1 => adjustSampling g1 ve g1.gpts
+      -- locked gpts and sampling determine the extent: nothing to re-derive (RuntimeError)
+      if g.lockGpts && g.gpts.isSome && g.sampling.isSome then (g, some "runtime_error")
+      else (adjustGpts g ve g.sampling).bind fun g1 => adjustSampling g1 ve g1.gpts
     else adjustSampling g ve g.gpts
   r.bind fun g2 => ({ g2 with extent := ve }, none)
 
@@ -144,12 +150,15 @@ def setExtent (g : Grid) (v : Val) : Res :=
     | .ok false =>
       match validate g.dims v with
       | .error e => (g, some e)
-      | .ok ve => setExtentCore g ve
+      | .ok ve =>
+        -- an extent equal (within tolerance) to the locked one leaves the grid as it is
+        if g.lockExtent && g.extent.isSome then (g, none) else setExtentCore g ve
 
 /-- body of the gpts setter after validation -/
 def setGptsCore (g : Grid) (vg : Option (List Int)) : Res :=
   let r : Res :=
-    if g.lockSampling then adjustExtent g vg g.sampling
+    if g.lockSampling && g.sampling.isSome then
+      if g.lockExtent && g.extent.isSome then (g, some "runtime_error") else adjustExtent g vg g.sampling
     else if g.extent.isSome then adjustSampling g g.extent vg
     else adjustExtent g vg g.sampling
   r.bind fun g1 => ({ g1 with gpts := vg }, none)
@@ -158,14 +167,15 @@ def setGptsCore (g : Grid) (vg : Option (List Int)) : Res :=
 def setGpts (g : Grid) (v : Val) : Res :=
   if g.lockGpts then (g, some "runtime_error")
   else
-    match validateGpts g.dims v with
+    match validateGpts g.dims v g.extent with
     | .error e => (g, some e)
     | .ok vg => setGptsCore g vg
 
 /-- body of the sampling setter after validation -/
 def setSamplingCore (g : Grid) (vs : Option (List Rat)) : Res :=
   let r : Res :=
-    if g.lockGpts then adjustExtent g g.gpts vs
+    if g.lockGpts then
+      if g.lockExtent && g.extent.isSome && g.gpts.isSome then (g, some "runtime_error") else adjustExtent g g.gpts vs
     else if g.extent.isSome then adjustGpts g g.extent vs
     else adjustExtent g g.gpts vs
   r.bind fun g1 =>
@@ -197,7 +207,7 @@ def run (g : Grid) (ops : List Op) : Grid := ops.foldl (fun g op => (step g op).
 /-- `Grid.__init__` (exceptions abort the construction).  `endpoint` is the tuple the constructor stores
 (a bool is replicated by the caller of this function, see `initB`). -/
 def init (dims : Nat) (endpoint : List Bool) (extent gpts sampling : Val) (lockE lockG lockS : Bool) : Except String Grid :=
-  match validate dims extent, validateGpts dims gpts, validate dims sampling with
+  match validate dims extent, validateGpts dims gpts ((validate dims extent).toOption.join), validate dims sampling with
   | .ok e, .ok gp, .ok s =>
     let g0 : Grid := { dims := dims, endpoint := endpoint, extent := e, gpts := gp, sampling := s,
                        lockExtent := lockE, lockGpts := lockG, lockSampling := lockS }
